@@ -79,4 +79,23 @@ def mstep (m : Mirror) : MEv → Mirror
 
 def mrun (m : Mirror) (evs : List MEv) : Mirror := evs.foldl mstep m
 
+/-! ## the remote mirror's request: a reply line, then the body, read through one buffered reader -/
+
+/-- what follows the first newline of a stream (the reply line "Streaming results…\n" ends at the first newline) -/
+def afterLine : List Nat → List Nat
+  | [] => []
+  | c :: rest => if c = 10 then rest else afterLine rest
+
+/-- length of the first line including its newline (the whole stream if there is none) -/
+def lineLen : List Nat → Nat
+  | [] => 0
+  | c :: rest => if c = 10 then 1 else 1 + lineLen rest
+
+/-- A buffered reader that has pulled the first `k` bytes of the stream while looking for the end of the line
+(`k` at least the length of the line: it reads whatever has arrived) keeps what it pulled beyond the line.
+`viaReader`: the body copied from the same reader (regenerated fact `io.Copy(stdout, reader)`);
+`viaConn`: the body copied from the connection underneath, past the reader. -/
+def bodyCopied (viaReader : Bool) (stream : List Nat) (k : Nat) : List Nat :=
+  if viaReader then ((stream.take k).drop (lineLen stream)) ++ stream.drop k else stream.drop k
+
 end Receptor.Results
